@@ -61,6 +61,10 @@ func (c *Conversation) verifySMP1(msg smp1Message) error {
 		return newOtrError("g3a is an invalid group element")
 	}
 
+	if !isExponent(msg.d2) || !isExponent(msg.d3) {
+		return newOtrError("d2 or d3 is not a valid exponent")
+	}
+
 	if !verifyZKP(msg.d2, msg.g2a, msg.c2, 1, c.version) {
 		return newOtrError("c2 is not a valid zero knowledge proof")
 	}
